@@ -170,6 +170,13 @@ static void run_case(const JVal& in) {
         G2 r; memset(&r, 0xA5, sizeof r);
         embedded_pairing_bls12_381_g2_random((embedded_pairing_bls12_381_g2_t*) &r, scripted_random);
         out.set("r", J(r)); end_script(out);
+    } else if (op == "rand.zpstar_px") {
+        // the scheme's sampler that returns a scalar together with its base-|x| decomposition
+        begin_script(in);
+        PowersOfX p; embedded_pairing::wkdibe::Scalar y; memset(&p, 0xA5, sizeof p); memset(&y, 0xA5, sizeof y);
+        embedded_pairing::wkdibe::random_zpstar(p, y, scripted_random);
+        JVal d = JVal::arr(); for (int i = 0; i < 4; i++) d.push(J(p.c[i]));
+        out.set("c", d); out.set("y", J(*reinterpret_cast<BigInt<256>*>(&y))); end_script(out);
     } else if (op == "rand.powx") {
         begin_script(in);
         PowersOfX p; BigInt<256> y; memset(&p, 0xA5, sizeof p); memset(&y, 0xA5, sizeof y);
